@@ -11,75 +11,75 @@ import (
 )
 
 const (
-	faultNone = iota
-	faultSenderSend
-	faultSenderRecv
-	faultReceiverSend
-	faultReceiverRecv
-	faultWalk
-	faultRead
-	faultOpen
-	faultHasher
-	faultNotify
-	faultCancel
-	faultKinds
+	vh_faultNone = iota
+	vh_faultSenderSend
+	vh_faultSenderRecv
+	vh_faultReceiverSend
+	vh_faultReceiverRecv
+	vh_faultWalk
+	vh_faultRead
+	vh_faultOpen
+	vh_faultHasher
+	vh_faultNotify
+	vh_faultCancel
+	vh_faultKinds
 )
 
 // runTransfer runs the real Send over view and the real Receive into dest, connected by the
 // in-memory stream, with one injected fault. Once nothing can make progress any more the caller
 // tears the transport down (the property's "once the stream is torn down") and both calls must
 // return.
-func runTransfer(view *memFS, dest string, kind, k int) (sendErr, recvErr error, finAcked bool) {
+func vh_runTransfer(view *vh_memFS, dest string, kind, k int) (sendErr, recvErr error, finAcked bool) {
 	ctx, cancel := context.WithCancel(context.Background())
 	defer cancel()
-	s1, s2 := newStreamPair(ctx, 512)
+	s1, s2 := vh_newStreamPair(ctx, 512)
 	opt := ReceiveOpt{}
 	switch kind {
-	case faultSenderSend:
+	case vh_faultSenderSend:
 		s1.sendErrAt = k
-	case faultSenderRecv:
+	case vh_faultSenderRecv:
 		s1.recvErrAt = k
-	case faultReceiverSend:
+	case vh_faultReceiverSend:
 		s2.sendErrAt = k
-	case faultReceiverRecv:
+	case vh_faultReceiverRecv:
 		s2.recvErrAt = k
-	case faultWalk:
+	case vh_faultWalk:
 		view.walkErrAt = (k - 1) % len(view.entries)
-	case faultRead:
+	case vh_faultRead:
 		for _, e := range view.entries {
 			if len(e.data) >= 2 {
 				e.readErrAfter = 2 // fails after one byte was handed out
 			}
 		}
-	case faultOpen:
+	case vh_faultOpen:
 		for _, e := range view.entries {
 			if len(e.data) >= 2 {
 				e.openErr = true
 			}
 		}
-	case faultCancel:
+	case vh_faultCancel:
 		s1.onSend = func(n int) {
 			if n == k {
 				cancel()
 			}
 		}
 	}
-	if kind == faultHasher || kind == faultNotify {
+	if kind == vh_faultHasher || kind == vh_faultNotify {
 		calls := 0
 		opt.ContentHasher = func(st *types.Stat) (hash.Hash, error) {
-			if kind == faultHasher {
+			if kind == vh_faultHasher {
 				calls++
 				if calls == k {
-					return nil, errInjected
+					return nil, vh_errInjected
 				}
 			}
-			return &recHash{}, nil
+			return &vh_recHash{}, nil
 		}
 		opt.NotifyHashed = func(ChangeKind, string, os.FileInfo, error) error {
-			if kind == faultNotify {
+			if kind == vh_faultNotify {
 				calls++
 				if calls == k {
-					return errInjected
+					return vh_errInjected
 				}
 			}
 			return nil
@@ -121,19 +121,19 @@ func runTransfer(view *memFS, dest string, kind, k int) (sendErr, recvErr error,
 	return sendErr, recvErr, s1.gotFIN
 }
 
-func c04View() *memFS {
-	mk := func(p string, class int, data []byte) *memEntry {
-		e := &memEntry{stat: &types.Stat{Path: p, Mode: modeFor(class, 0755), Uid: 1, Gid: 1, ModTime: mtimeChoices[0], Size: int64(len(data))}, data: data}
+func vh_c04View() *vh_memFS {
+	mk := func(p string, class int, data []byte) *vh_memEntry {
+		e := &vh_memEntry{stat: &types.Stat{Path: p, Mode: vh_modeFor(class, 0755), Uid: 1, Gid: 1, ModTime: vh_mtimeChoices[0], Size: int64(len(data))}, data: data}
 		return e
 	}
-	return &memFS{walkErrAt: -1, wholeReads: true, entries: []*memEntry{
-		mk("d", clsDir, nil),
-		mk("d/f", clsFile, v.Bytes("f", 1)),
-		mk("e", clsFile, v.Bytes("e", 2)),
+	return &vh_memFS{walkErrAt: -1, wholeReads: true, entries: []*vh_memEntry{
+		mk("d", vh_clsDir, nil),
+		mk("d/f", vh_clsFile, v.Bytes("f", 1)),
+		mk("e", vh_clsFile, v.Bytes("e", 2)),
 	}}
 }
 
-func destEqualsView(dest string, view *memFS) bool {
+func vh_destEqualsView(dest string, view *vh_memFS) bool {
 	snap := m.Snapshot(dest)
 	if len(snap) != len(view.entries) {
 		return false
@@ -168,19 +168,19 @@ func VH_C04_faults() {
 		m.MkFile(dest+"/e", []byte("old"), 0600, 7, 7, 5)
 		m.MkFile(dest+"/zz", []byte("z"), 0600, 7, 7, 5)
 	}
-	kind := v.Choose("fault", faultKinds)
+	kind := v.Choose("fault", vh_faultKinds)
 	k := 1 + v.Choose("k", v.Param("K", 8))
-	view := c04View()
-	sendErr, recvErr, fin := runTransfer(view, dest, kind, k)
+	view := vh_c04View()
+	sendErr, recvErr, fin := vh_runTransfer(view, dest, kind, k)
 	v.Observe("send-ok", sendErr == nil)
 	v.Observe("recv-ok", recvErr == nil)
 	v.Assert(v.Goroutines() == 0, "after teardown every goroutine started by Send and Receive has ended")
 	if recvErr == nil {
 		v.Cover("receive-success")
-		if kind == faultOpen {
-			v.Assert(destEqualsView(dest, view), "Receive returns success only if the destination equals the source view [class: announced source file cannot be opened]")
+		if kind == vh_faultOpen {
+			v.Assert(vh_destEqualsView(dest, view), "Receive returns success only if the destination equals the source view [class: announced source file cannot be opened]")
 		} else {
-			v.Assert(destEqualsView(dest, view), "Receive returns success only if the destination equals the source view")
+			v.Assert(vh_destEqualsView(dest, view), "Receive returns success only if the destination equals the source view")
 		}
 	} else {
 		v.Cover("receive-failure")
@@ -191,16 +191,16 @@ func VH_C04_faults() {
 	} else {
 		v.Cover("send-failure")
 	}
-	if kind == faultNone {
+	if kind == vh_faultNone {
 		v.Assert(sendErr == nil && recvErr == nil, "a fault-free transfer succeeds")
 	}
 	// a later fault-free transfer into whatever the aborted run left behind converges
-	view2 := c04View()
+	view2 := vh_c04View()
 	for i, e := range view2.entries {
 		e.data = view.entries[i].data
 	}
-	sendErr, recvErr, _ = runTransfer(view2, dest, faultNone, 0)
+	sendErr, recvErr, _ = vh_runTransfer(view2, dest, vh_faultNone, 0)
 	v.Assert(sendErr == nil && recvErr == nil, "a fault-free transfer after an aborted one succeeds")
-	v.Assert(destEqualsView(dest, view2), "a fault-free transfer after an aborted one converges to the source view")
+	v.Assert(vh_destEqualsView(dest, view2), "a fault-free transfer after an aborted one converges to the source view")
 	v.Assert(v.Goroutines() == 0, "no goroutine is left behind")
 }
